@@ -3,3 +3,7 @@ from . import mech
 
 def run(tier):
     return mech.split(flow=True)
+
+
+def replay(prop, ob):
+    return mech.replay(prop, ob)
